@@ -245,6 +245,11 @@ func AssembleFile(ctx context.Context, name string, idx Index, s Store, seeds []
 	for {
 		validatingPrefix := fmt.Sprintf("Attempt %d: Validating ", attempt)
 		if err := plan.Validate(ctx, options.N, NewProgressBar(validatingPrefix)); err != nil {
+			// An interrupted validation says nothing about the seeds, validating
+			// another plan would be interrupted again
+			if _, ok := err.(Interrupted); ok {
+				return stats, err
+			}
 			// This plan has at least one invalid seed
 			switch options.InvalidSeedAction {
 			case InvalidSeedActionBailOut:
